@@ -22,18 +22,19 @@ VARIABLES
   cur,      \* current case: [src, docs, plan, ...]
   phase,    \* "idle" | "loaded" | "failed"
   objs,     \* Seq of [sw, st]: rule objects derived from the loaded rule; st \in {"ok","dead"}
-  den       \* bound denotation: function from a subset of doc indices to BOOLEAN
+  den,      \* bound denotation: function from a subset of doc indices to BOOLEAN
+  prints    \* printed form of the optimised expression, bound per switch set (C12)
 
-rvars == <<cur, phase, objs, den>>
+rvars == <<cur, phase, objs, den, prints>>
 
 NoSw == <<>>                          \* "not optimised"
 IsSw(s) == s = NoSw \/ (Len(s) = 4 /\ \A i \in 1..4 : s[i] \in BOOLEAN)
 
 RInit == /\ cur = [src |-> [cond |-> [t |-> "none"], ids |-> <<>>], docs |-> <<>>]
-         /\ phase = "idle" /\ objs = <<>> /\ den = <<>>
+         /\ phase = "idle" /\ objs = <<>> /\ den = <<>> /\ prints = <<>>
 
 (* a new case: a fresh rule text *)
-NewCase(c) == /\ cur' = c /\ phase' = "idle" /\ objs' = <<>> /\ den' = <<>>
+NewCase(c) == /\ cur' = c /\ phase' = "idle" /\ objs' = <<>> /\ den' = <<>> /\ prints' = <<>>
 
 (* A condition may be given as TEXT (C05, C03): its meaning is then the tree the reference     *)
 (* grammar assigns to it.                                                                     *)
@@ -56,39 +57,94 @@ LoadOutcomes(c) == IF IsText(c.src) /\ "bodies_ok" \in DOMAIN c /\ c.bodies_ok
 Load(out) == /\ phase = "idle"
              /\ out \in LoadOutcomes(cur)
              /\ phase' = IF out = "ok" THEN "loaded" ELSE "failed"
-             /\ UNCHANGED <<cur, objs, den>>
+             /\ UNCHANGED <<cur, objs, den, prints>>
 
 (* clone + Rule::optimise(sw): a new object; never panics (C01/C03); the    *)
 (* denotation is that of the case (C01) - nothing else changes.             *)
-Optimise(k, sw, out) ==
+SwKey(sw) == sw
+PrintBound(sw) == \E i \in DOMAIN prints : prints[i][1] = SwKey(sw)
+PrintOf(sw) == prints[CHOOSE i \in DOMAIN prints : prints[i][1] = SwKey(sw)][2]
+(* expr: the printed expression, or <<>> when the event does not carry one.  Optimising is a    *)
+(* function of (text, switches): the print is the same every time (C12).                        *)
+PrintOk(sw, expr) == IF expr = <<>> THEN TRUE ELSE IF ~PrintBound(sw) THEN TRUE ELSE PrintOf(sw) = expr
+Optimise(k, sw, out, expr) ==
   /\ phase = "loaded" /\ IsSw(sw) /\ k = Len(objs)
   /\ out = "ok"
+  /\ PrintOk(sw, expr)
   /\ objs' = Append(objs, [sw |-> sw, st |-> "ok"])
+  /\ prints' = IF expr = <<>> THEN prints ELSE IF PrintBound(sw) THEN prints ELSE Append(prints, <<SwKey(sw), expr>>)
   /\ UNCHANGED <<cur, phase, den>>
 
-(* the verdicts the specification allows for document d (1-based)           *)
-Allowed(d) ==
-  (IF HasOracle(cur) /\ TextOk(cur.src) THEN LangVerdicts(Ast(cur.src), cur.docs[d]) ELSE BOOLEAN)
-  \cap (IF d \in DOMAIN den THEN {den[d]} ELSE BOOLEAN)
+(* Which observations must agree?  scope "case" (default): every object of the case - after    *)
+(* any optimisation, through any representation, from any thread (C01, C11, C12, C17).          *)
+(* scope "sw": objects with the same switch set - an object, its reloads and validate() (C13,  *)
+(* C14), so that those checks do not depend on C01.                                            *)
+ScopeSw == "plan" \in DOMAIN cur /\ "scope" \in DOMAIN cur.plan /\ cur.plan.scope = "sw"
+Cls(k) == IF ScopeSw /\ k + 1 \in DOMAIN objs THEN objs[k + 1].sw ELSE <<>>
+DK(k, d) == <<Cls(k), d>>
 
-Bind(d, v) == IF d \in DOMAIN den THEN den ELSE [x \in (DOMAIN den) \cup {d} |-> IF x = d THEN v ELSE den[x]]
+(* the verdicts the specification allows for object k on document d (1-based)               *)
+Allowed(k, d) ==
+  (IF HasOracle(cur) /\ TextOk(cur.src) THEN LangVerdicts(Ast(cur.src), cur.docs[d]) ELSE BOOLEAN)
+  \cap (IF DK(k, d) \in DOMAIN den THEN {den[DK(k, d)]} ELSE BOOLEAN)
+
+Bind(k, d, v) == IF DK(k, d) \in DOMAIN den THEN den
+                 ELSE [x \in (DOMAIN den) \cup {DK(k, d)} |-> IF x = DK(k, d) THEN v ELSE den[x]]
 
 (* Rule::matches(&self, doc): pure - the rule objects are unchanged (C12)   *)
 Match(k, d, v) ==
   /\ phase = "loaded" /\ k + 1 \in DOMAIN objs /\ d \in DOMAIN cur.docs
-  /\ v \in Allowed(d)
-  /\ den' = Bind(d, v)
-  /\ UNCHANGED <<cur, phase, objs>>
+  /\ v \in Allowed(k, d)
+  /\ den' = Bind(k, d, v)
+  /\ UNCHANGED <<cur, phase, objs, prints>>
 
 (* three-valued observation of the whole condition on document d            *)
 TriAllowed(d) == IF HasOracle(cur) /\ TextOk(cur.src) THEN LangEval(Ast(cur.src), cur.docs[d]) ELSE Tri
 ObserveTri(k, d, r) ==
   /\ phase = "loaded" /\ k + 1 \in DOMAIN objs /\ d \in DOMAIN cur.docs
   /\ r \in TriAllowed(d)
-  /\ (d \in DOMAIN den => den[d] = Verdict(r))
-  /\ den' = Bind(d, Verdict(r))
-  /\ UNCHANGED <<cur, phase, objs>>
+  /\ (IF DK(k, d) \in DOMAIN den THEN den[DK(k, d)] = Verdict(r) ELSE TRUE)
+  /\ den' = Bind(k, d, Verdict(r))
+  /\ UNCHANGED <<cur, phase, objs, prints>>
+
+-----------------------------------------------------------------------------
+(* validate() (C13): a function of the verdicts matches() gives on the rule's own examples.     *)
+(* Examples: cur.tps \o cur.tns, each [d |-> doc index] (a mapping) or [raw |-> value] (not a   *)
+(* mapping).  Numbered 0.. in that order.                                                      *)
+Tps(c) == IF "tps" \in DOMAIN c THEN c.tps ELSE <<>>
+Tns(c) == IF "tns" \in DOMAIN c THEN c.tns ELSE <<>>
+Examples(c) == Tps(c) \o Tns(c)
+IsRaw(ex) == "raw" \in DOMAIN ex
+ExDoc(ex) == ex.d + 1
+(* all example documents have an observed verdict *)
+ExamplesBound(k) == \A i \in DOMAIN Examples(cur) :
+                       IF IsRaw(Examples(cur)[i]) THEN TRUE ELSE DK(k, ExDoc(Examples(cur)[i])) \in DOMAIN den
+Failing(k) == {i - 1 : i \in {j \in DOMAIN Examples(cur) :
+                 LET ex == Examples(cur)[j] IN
+                 IF IsRaw(ex) THEN FALSE
+                 ELSE IF j <= Len(Tps(cur)) THEN ~den[DK(k, ExDoc(ex))] ELSE den[DK(k, ExDoc(ex))]}}
+HasRaw == \E i \in DOMAIN Examples(cur) : IsRaw(Examples(cur)[i])
+ValidateOk(k, out, kind, named) ==
+  IF HasRaw THEN out = "err"                       \* a malformed example is an error, not a panic
+  ELSE IF Failing(k) = {} THEN out = "ok"
+  ELSE out = "err" /\ kind = "Validation" /\ named = Failing(k)
+Validate(k, out, kind, named) ==
+  /\ phase = "loaded" /\ k + 1 \in DOMAIN objs /\ ExamplesBound(k)
+  /\ ValidateOk(k, out, kind, named)
+  /\ UNCHANGED rvars
+
+(* serde_yaml::to_string(&rule) then Rule::from_str / from_value (C14): the reloaded rule has    *)
+(* the same condition, identifiers and examples (`same`), and is a further object of the case - *)
+(* its verdicts are checked against the case's denotation like any other object's.             *)
+Serialise(k, out) == /\ phase = "loaded" /\ k + 1 \in DOMAIN objs /\ out = "ok" /\ UNCHANGED rvars
+Reload(from, k, out, same) ==
+  /\ phase = "loaded" /\ from + 1 \in DOMAIN objs /\ k = Len(objs)
+  /\ out = "ok" /\ same
+  \* the reloaded rule is parsed afresh from the serialised source: it is an object of the
+  \* "not optimised" class whatever was done to the object it was serialised from
+  /\ objs' = Append(objs, [sw |-> NoSw, st |-> "ok"])
+  /\ UNCHANGED <<cur, phase, den, prints>>
 
 (* C12 as an action property: matching never changes a rule object *)
-Pure == [][(den' # den) => UNCHANGED <<cur, phase, objs>>]_rvars
+Pure == [][(den' # den) => UNCHANGED <<cur, phase, objs, prints>>]_rvars
 =============================================================================
